@@ -5,12 +5,26 @@ type nat =
 | O
 | S of nat
 
+type ('a, 'b) sum =
+| Inl of 'a
+| Inr of 'b
+
+val fst : ('a1 * 'a2) -> 'a1
+
+val snd : ('a1 * 'a2) -> 'a2
+
+val length : 'a1 list -> nat
+
+val app : 'a1 list -> 'a1 list -> 'a1 list
+
 type comparison =
 | Eq
 | Lt
 | Gt
 
 val compOpp : comparison -> comparison
+
+val pred : nat -> nat
 
 val add : nat -> nat -> nat
 
@@ -27,6 +41,17 @@ type z =
 | Z0
 | Zpos of positive
 | Zneg of positive
+
+module Nat :
+ sig
+  val add : nat -> nat -> nat
+
+  val mul : nat -> nat -> nat
+
+  val eqb : nat -> nat -> bool
+
+  val leb : nat -> nat -> bool
+ end
 
 module Pos :
  sig
@@ -67,6 +92,8 @@ module Pos :
   val iter_op : ('a1 -> 'a1 -> 'a1) -> positive -> 'a1 -> 'a1
 
   val to_nat : positive -> nat
+
+  val of_succ_nat : nat -> positive
  end
 
 module N :
@@ -110,6 +137,8 @@ module Z :
 
   val to_nat : z -> nat
 
+  val of_nat : nat -> z
+
   val of_N : n -> z
 
   val pos_div_eucl : positive -> z -> z * z
@@ -126,6 +155,30 @@ module Z :
 
   val coq_land : z -> z -> z
  end
+
+val nth : nat -> 'a1 list -> 'a1 -> 'a1
+
+val nth_error : 'a1 list -> nat -> 'a1 option
+
+val rev : 'a1 list -> 'a1 list
+
+val map : ('a1 -> 'a2) -> 'a1 list -> 'a2 list
+
+val flat_map : ('a1 -> 'a2 list) -> 'a1 list -> 'a2 list
+
+val fold_left : ('a1 -> 'a2 -> 'a1) -> 'a2 list -> 'a1 -> 'a1
+
+val fold_right : ('a2 -> 'a1 -> 'a1) -> 'a1 -> 'a2 list -> 'a1
+
+val existsb : ('a1 -> bool) -> 'a1 list -> bool
+
+val forallb : ('a1 -> bool) -> 'a1 list -> bool
+
+val filter : ('a1 -> bool) -> 'a1 list -> 'a1 list
+
+val combine : 'a1 list -> 'a2 list -> ('a1 * 'a2) list
+
+val seq : nat -> nat -> nat list
 
 val neg_one : z -> z
 
@@ -170,3 +223,418 @@ val into_u8 : z -> z -> z
 val from_i16 : z -> z -> z
 
 val try_into_i16 : z -> z -> z option
+
+module PositiveMap :
+ sig
+  type key = positive
+
+  type 'a tree =
+  | Leaf
+  | Node of 'a tree * 'a option * 'a tree
+
+  type 'a t = 'a tree
+
+  val empty : 'a1 t
+
+  val find : key -> 'a1 t -> 'a1 option
+
+  val add : key -> 'a1 -> 'a1 t -> 'a1 t
+ end
+
+type event =
+| EvIn of z
+| EvEof
+| EvInFail
+| EvOut of z
+| EvOutFail of z
+
+type env = { input : z list; in_absent : bool; in_fail_at : nat option;
+             out_present : bool; out_fail_at : nat option }
+
+type iost = { in_pos : nat; out_cnt : nat; trace : event list }
+
+val io0 : iost
+
+type 'a io_res =
+| IoOk of 'a * iost
+| IoFail of iost
+
+val opt_nat_eqb : nat option -> nat -> bool
+
+val do_input : env -> iost -> z io_res
+
+val do_output : env -> iost -> z -> unit io_res
+
+type 'a outcome =
+| Done of 'a
+| Stopped of 'a
+| Interrupted of 'a
+| Errored of z * 'a
+| OutOfFuel of 'a
+
+val outcome_state : 'a1 outcome -> 'a1
+
+val key_of : z -> positive
+
+type tmap = z PositiveMap.t
+
+val tempty : tmap
+
+val tget : tmap -> z -> z
+
+val tset : tmap -> z -> z -> tmap
+
+type cmd =
+| Inc
+| Dec
+| Left
+| Right
+| Out
+| In
+| Loop of cmd list
+
+val ch_plus : z
+
+val ch_comma : z
+
+val ch_minus : z
+
+val ch_dot : z
+
+val ch_lt : z
+
+val ch_gt : z
+
+val ch_open : z
+
+val ch_close : z
+
+val parse_ast : z list -> cmd list -> cmd list list -> cmd list option
+
+val ast_of_source : z list -> cmd list option
+
+val balanced_from : z list -> nat -> bool
+
+val balanced : z list -> bool
+
+type bfst = { tape : tmap; ptr : z; io : iost }
+
+val bf0 : bfst
+
+val cur : bfst -> z
+
+val set_cur : bfst -> z -> bfst
+
+val set_io : bfst -> iost -> bfst
+
+val move : bfst -> z -> bfst
+
+val bf_simple : z -> env -> cmd -> bfst -> (bfst, bfst) sum
+
+val bf_exec : z -> env -> nat -> cmd list -> bfst -> bfst outcome
+
+val bf_run : z -> env -> nat -> z list -> bfst outcome option
+
+val events : ('a1 -> iost) -> 'a1 outcome -> event list
+
+type part = z * z list
+
+type expr = part list
+
+val lcmp : z list -> z list -> comparison
+
+val list_eqb : z list -> z list -> bool
+
+val mem : z -> z list -> bool
+
+val count : z -> z list -> nat
+
+val dedup : z list -> z list
+
+val insert_z : z -> z list -> z list
+
+val sort_z : z list -> z list
+
+val insert_part : part -> expr -> expr
+
+val sort_parts : expr -> expr
+
+val nonzero : part -> bool
+
+val e_val : z -> expr
+
+val e_var : z -> expr
+
+val eval_part : z -> (z -> z) -> part -> z
+
+val eval : z -> expr -> (z -> z) -> z
+
+val e_add : z -> expr -> expr -> expr
+
+val scale_parts : z -> expr -> part -> expr
+
+type amap = (z list * z) list
+
+val acc_add : z -> z list -> z -> amap -> amap
+
+val amap_parts : amap -> expr
+
+val mul_general : z -> expr -> expr -> expr
+
+val e_mul : z -> expr -> expr -> expr
+
+val e_neg : z -> expr -> expr
+
+val e_half : z -> expr -> expr option
+
+val e_is_zero : expr -> bool
+
+val e_add_count : expr -> nat
+
+val e_op_count : z -> expr -> nat
+
+val e_constant : expr -> z option
+
+val is_single : z -> part -> bool
+
+val e_inc_of : expr -> z -> expr option
+
+val e_prod_inc_of : expr -> z -> (expr * z) option
+
+val e_const_inc_of : expr -> z -> z option
+
+val remove_var : z -> z list -> z list
+
+val e_prod_of : expr -> z -> expr option
+
+val e_constant_part : expr -> z
+
+val e_identity : expr -> z option
+
+val e_variables : expr -> z list
+
+val assoc_z : z -> (z * 'a1) list -> 'a1 option
+
+val e_split_along :
+  z -> expr -> z list -> (z * expr) list -> ((expr * expr) * (expr * expr)
+  list) option
+
+val half_mod : z -> z
+
+val chunk_sum : z -> part option -> expr -> expr
+
+val norm_phase1 : z -> expr -> expr
+
+val upd_coef : nat -> z -> expr -> expr
+
+val coef_at : expr -> nat -> z
+
+val vars_at : expr -> nat -> z list
+
+val assoc_l : z list -> (z list * 'a1) list -> 'a1 option
+
+val assoc_l_push :
+  z list -> nat -> (z list * nat list) list -> (z list * nat list) list
+
+val norm_cond : z -> z -> z -> bool
+
+val norm_phase2 : z -> expr -> expr
+
+val e_normalize : z -> expr -> expr
+
+val scale_sorted : z -> expr -> part -> expr
+
+val amap_list : amap -> expr
+
+val mul_parts : z -> expr -> expr -> expr
+
+val e_symb_evaluate : z -> expr -> (z -> expr option) -> expr option
+
+type ipst = { ip_tape : tmap; ip_ptr : z; ip_io : iost; ip_budget : z;
+              ip_stack : z list list }
+
+val ip0 : z -> ipst
+
+val ip_cur : ipst -> z
+
+val ip_set_cur : ipst -> z -> ipst
+
+val ip_set_io : ipst -> iost -> ipst
+
+val ip_move : ipst -> z -> ipst
+
+val ip_set_stack : ipst -> z list list -> ipst
+
+val ip_set_budget : ipst -> z -> ipst
+
+val ip_scan : z list -> nat -> z list
+
+val ip_exec : z -> env -> bool -> z -> nat -> z list -> ipst -> ipst outcome
+
+val ip_run : z -> env -> bool -> z -> nat -> z list -> ipst outcome
+
+type instr =
+| IOut of z
+| IIn of z
+| ICalc of (z * expr) list
+| ILoop of z * z * instr list * bool
+| IIf of z * z * instr list
+
+type block = z * instr list
+
+type irst = { ir_tape : tmap; ir_ptr : z; ir_io : iost; ir_budget : z }
+
+val ir0 : z -> irst
+
+val ir_read : irst -> z -> z
+
+val ir_write : irst -> z -> z -> irst
+
+val ir_set_io : irst -> iost -> irst
+
+val ir_move : irst -> z -> irst
+
+val ir_set_budget : irst -> z -> irst
+
+val ir_calc : z -> (z * expr) list -> irst -> irst
+
+val ir_exec : z -> env -> bool -> nat -> instr list -> irst -> irst outcome
+
+val ir_run : z -> env -> bool -> z -> nat -> block -> irst outcome
+
+val finished_flag : 'a1 outcome -> bool
+
+type loc =
+| Mem of z
+| MemZero of z
+| Tmp of z
+| Imm of z
+
+type binstr =
+| Noop
+| Scan of z * z
+| MovP of z
+| Inp of z
+| Outp of z
+| BrZ of z * z
+| BrNZ of z * z
+| Add of loc * loc * loc
+| Sub of loc * loc * loc
+| Mul of loc * loc * loc
+| Copy of loc * loc
+
+type bprog = { bp_temps : z; bp_min : z; bp_max : z; bp_live : z list;
+               bp_code : binstr list }
+
+type bcst = { bc_tape : tmap; bc_ptr : z; bc_tmps : tmap; bc_pc : z;
+              bc_io : iost; bc_budget : z }
+
+val bc0 : z -> bcst
+
+val bc_mem : bcst -> z -> z
+
+val bc_set_mem : bcst -> z -> z -> bcst
+
+val bc_set_tmp : bcst -> z -> z -> bcst
+
+val bc_set_pc : bcst -> z -> bcst
+
+val bc_set_io : bcst -> iost -> bcst
+
+val bc_move : bcst -> z -> bcst
+
+val bc_set_budget : bcst -> z -> bcst
+
+val bc_read : z -> bcst -> loc -> z * bcst
+
+val bc_write : bcst -> loc -> z -> bcst
+
+val loc_eqb : loc -> loc -> bool
+
+val bc_binop : z -> (z -> z -> z) -> bcst -> loc -> loc -> loc -> bcst
+
+val bc_scan : nat -> z -> z -> bcst -> bcst option
+
+val next : bcst -> bcst
+
+val bc_limit : z -> bcst -> bcst option
+
+val usize_max : z
+
+val bc_exec :
+  z -> env -> bool -> (z -> binstr option) -> z -> nat -> bcst -> bcst outcome
+
+val code_map :
+  binstr list -> z -> binstr PositiveMap.t -> binstr PositiveMap.t
+
+val fetch_of : bprog -> z -> binstr option
+
+val bc_run : z -> env -> bool -> z -> nat -> bprog -> bcst outcome
+
+type buff = (z * z) list
+
+val buff_get : buff -> z -> z option
+
+val buff_set : buff -> z -> z -> buff
+
+val buff_val : buff -> z -> z
+
+val i_add : z -> z -> instr
+
+val i_load : z -> z -> instr
+
+type frame = { f_shift : z; f_moved : bool; f_insts : instr list;
+               f_buff : buff }
+
+type perr =
+| LoopNotClosed
+| LoopNotOpened
+
+type parse_res =
+| POk of block
+| PErr of perr * z
+
+val flush_nonzero : buff -> instr list -> instr list
+
+val flush_key : z -> (instr list * buff) -> instr list * buff
+
+val zero_all : buff -> buff
+
+val is_clear_loop : z -> frame -> instr list -> z -> bool
+
+val close_loop : z -> frame -> frame -> frame
+
+val frame0 : z -> frame
+
+val with_shift : frame -> z -> frame
+
+val with_insts_buff : frame -> instr list -> buff -> frame
+
+val parse_go : z -> z list -> z -> frame -> frame list -> z list -> parse_res
+
+val parse : z -> z list -> parse_res
+
+type bfcfg = { c_ctl : cmd list; c_kont : (cmd list * cmd list) list;
+               c_st : bfst }
+
+type 'a step_res =
+| Next of 'a
+| Final of bfst outcome
+
+val bf_step : z -> env -> bfcfg -> bfcfg step_res
+
+val bf_steps : z -> env -> nat -> bfcfg -> bfst outcome
+
+val bf_machine_run : z -> env -> nat -> z list -> bfst outcome option
+
+type ircfg = { i_ctl : instr list; i_kont : (z * instr list) list; i_st : irst }
+
+type istep_res =
+| INext of ircfg
+| IFinal of irst outcome
+
+val ir_step : z -> env -> bool -> ircfg -> istep_res
+
+val ir_steps : z -> env -> bool -> nat -> ircfg -> irst outcome
+
+val ir_machine_run : z -> env -> bool -> z -> nat -> block -> irst outcome
